@@ -335,3 +335,143 @@ func (c *Ctx) ruleValueCopyMutator(rule, dir string) {
 	}
 	c.ob(rule, "scan", token.NoPos, true, fmt.Sprintf("%d by-value struct copies examined, %d mutating calls on them", copies, n))
 }
+
+// R-REMOVEMATCH: the database-backed engine removes a value only from the node whose key matches exactly.
+func (c *Ctx) ruleTriedbRemoveMatch() {
+	sp := c.ssaPkg(triedbDir)
+	if sp == nil {
+		return
+	}
+	c.doc("R-REMOVEMATCH", "TrieDB.removeInspector: every replaceOldValue (the removal of a node's value) is on a path where the node's partial key was compared with the remaining key — Equal() true for a leaf, CommonPrefix() == both lengths for a branch; `remaining key is empty` alone is not a match when the branch has a non-empty partial key (deleting an absent key would remove that branch's value)")
+	n := 0
+	for _, f := range allFuncs(c, sp) {
+		if f.Parent() != nil || !strings.HasPrefix(f.Name(), "removeInspector") {
+			continue
+		}
+		eachInstr(f, func(b *ssa.BasicBlock, _ int, in ssa.Instruction) {
+			call, ok := in.(*ssa.Call)
+			if !ok || call.Call.StaticCallee() == nil || !strings.HasPrefix(call.Call.StaticCallee().Name(), "replaceOldValue") {
+				return
+			}
+			n++
+			matched := false
+			for _, fc := range factsAt(b) {
+				if cl, ok := fc.cond.(*ssa.Call); ok && cl.Call.StaticCallee() != nil && cl.Call.StaticCallee().Name() == "Equal" && fc.truth {
+					matched = true
+				}
+				if bo, ok := fc.cond.(*ssa.BinOp); ok && ((bo.Op == token.EQL && fc.truth) || (bo.Op == token.NEQ && !fc.truth)) {
+					for _, side := range []ssa.Value{bo.X, bo.Y} {
+						for v := range backwardSlice(side, nil) {
+							if cl, ok := v.(*ssa.Call); ok && cl.Call.StaticCallee() != nil && cl.Call.StaticCallee().Name() == "CommonPrefix" {
+								matched = true
+							}
+						}
+					}
+				}
+			}
+			c.ob("R-REMOVEMATCH", fmt.Sprintf("removeInspector:remove-value#%d", n), call.Pos(), matched,
+				"a node's value is removed on a path where its partial key was not compared with the remaining key (only `remaining key is empty` holds): Delete of an absent key that ends on the edge into a branch removes that branch's value, or panics in fix()")
+		})
+	}
+	if n == 0 {
+		c.ob("R-REMOVEMATCH", "removeInspector:remove-value", token.NoPos, false, "no replaceOldValue call in removeInspector (anchor changed)")
+	}
+}
+
+// R-NILBRANCHVALUE: reading the value of a branch tolerates a branch without value.
+func (c *Ctx) ruleTriedbNilValue() {
+	sp := c.ssaPkg(triedbDir)
+	if sp == nil {
+		return
+	}
+	c.doc("R-NILBRANCHVALUE", "pkg/trie/triedb: a Branch's optional value handed to inMemoryFetchedValue is either tested for nil before the call or the callee's type switch has a nil case (no default panic for a value-less branch): Get of a key that ends on a value-less in-memory branch returns `absent`")
+	n := 0
+	for _, f := range allFuncs(c, sp) {
+		eachInstr(f, func(b *ssa.BasicBlock, _ int, in ssa.Instruction) {
+			call, ok := in.(*ssa.Call)
+			if !ok || call.Call.StaticCallee() == nil || !strings.HasPrefix(call.Call.StaticCallee().Name(), "inMemoryFetchedValue") {
+				return
+			}
+			arg := call.Call.Args[0]
+			base, fv, isField := fieldLoad(arg)
+			if !isField || fv == nil || fv.Name() != "value" || !strings.Contains(base.Type().String(), "Branch[") {
+				return
+			}
+			n++
+			guarded := false
+			for _, fc := range factsAt(b) {
+				if e, neq, isN := nilCmp(fc.cond); isN && fc.truth == neq && sameFieldLoad(e, arg) {
+					guarded = true
+				}
+			}
+			callee := call.Call.StaticCallee()
+			if callee.Origin() != nil {
+				callee = callee.Origin()
+			}
+			handlesNil := false
+			if len(callee.Params) > 0 {
+				eachInstr(callee, func(_ *ssa.BasicBlock, _ int, in2 ssa.Instruction) {
+					if e, _, isN := nilCmp2(in2); isN && e == ssa.Value(callee.Params[0]) {
+						handlesNil = true
+					}
+				})
+			}
+			c.ob("R-NILBRANCHVALUE", fmt.Sprintf("%s:branch-value#%d", shortFn(f), n), call.Pos(), guarded || handlesNil,
+				shortFn(f)+" hands a branch's value to inMemoryFetchedValue without a nil test and the callee panics (\"unreachable\") on nil: Put(0x1230), Put(0x1240), Get(0x12) before a commit panics")
+		})
+	}
+	if n == 0 {
+		c.ob("R-NILBRANCHVALUE", "branch-value", token.NoPos, false, "no read of a branch value through inMemoryFetchedValue (anchor changed)")
+	}
+}
+
+func nilCmp2(in ssa.Instruction) (ssa.Value, bool, bool) {
+	v, ok := in.(ssa.Value)
+	if !ok {
+		return nil, false, false
+	}
+	return nilCmp(v)
+}
+
+// R-KEYCLONE: the engine never keeps (and later rewrites) the caller's key buffer.
+func (c *Ctx) ruleTriedbKeyClone() {
+	sp := c.ssaPkg(triedbDir)
+	if sp == nil {
+		return
+	}
+	c.doc("R-KEYCLONE", "TrieDB.Put / Delete / Get wrap a COPY of the caller's key (slices.Clone / bytes.Clone / make+copy) in the Nibbles cursor: stored nodes keep views of that buffer which ShiftKey later rewrites in place, so an aliased caller buffer is corrupted and a reused one moves uncommitted entries")
+	n := 0
+	for _, f := range allFuncs(c, sp) {
+		if f.Parent() != nil || f.Signature.Recv() == nil || !strings.Contains(f.Signature.Recv().Type().String(), "TrieDB[") {
+			continue
+		}
+		nm := f.Name()
+		if i := strings.Index(nm, "["); i > 0 {
+			nm = nm[:i]
+		}
+		if nm != "Put" && nm != "Delete" && nm != "Get" {
+			continue
+		}
+		eachInstr(f, func(_ *ssa.BasicBlock, _ int, in ssa.Instruction) {
+			call, ok := in.(*ssa.Call)
+			if !ok || !strings.HasSuffix(calleeName(&call.Call), "nibbles.NewNibbles") {
+				return
+			}
+			n++
+			arg := call.Call.Args[0]
+			cloned := false
+			if cl, ok := arg.(*ssa.Call); ok {
+				cn := calleeName(&cl.Call)
+				if strings.Contains(cn, "slices.Clone") || cn == "bytes.Clone" {
+					cloned = true
+				}
+			}
+			if _, ok := arg.(*ssa.MakeSlice); ok {
+				cloned = true
+			}
+			c.ob("R-KEYCLONE", fmt.Sprintf("TrieDB.%s:key-is-copied", nm), call.Pos(), cloned,
+				"TrieDB."+nm+" wraps the caller's key slice itself: after the call the caller's buffer can be rewritten by the trie (key 0x0110 became 0x1010), and reusing the buffer for the next Put moves the previous, uncommitted entry")
+		})
+	}
+	c.ob("R-KEYCLONE", "scan", token.NoPos, n >= 2, fmt.Sprintf("%d NewNibbles(key) sites in TrieDB.Put/Delete/Get", n))
+}
